@@ -533,11 +533,36 @@ class VC:
         Returns True if every feasible case is valid, None if undecided (never claims a refutation)."""
         if not _has_ite(goal):
             return None
-        deadline = time.time() + 8.0
-        s = z3.Solver()
-        s.set("timeout", 2000)
-        s.add(*pc)
+        deadline = time.time() + max(8.0, self.timeout_s / 2.0)
+        pcs = [(c, _consts_cached(c)) for c in pc]
+        lits = []  # case literals chosen so far
         leaves = [0]
+
+        def infeasible(lit):
+            """focused pruning: only hypotheses about the literal's own symbols (a subset of PC is sound for 'unsat')"""
+            syms = _free_consts(lit)
+            for l in lits:
+                syms |= _free_consts(l)
+            sub = [c for c, cs in pcs if cs <= syms]
+            sf = z3.Solver()
+            sf.set("timeout", 1500)
+            sf.add(*sub)
+            sf.add(*lits)
+            sf.add(lit)
+            return sf.check() == z3.unsat
+
+        def leaf_valid(g):
+            if all(_cheaply_valid(p) for p in _flatten_and(g)):
+                return True
+            syms = _free_consts(g)
+            for l in lits:
+                syms |= _free_consts(l)
+            sf = z3.Solver()
+            sf.set("timeout", 2000)
+            sf.add(*[c for c, cs in pcs if cs <= syms])
+            sf.add(*lits)
+            sf.add(z3.Not(g))
+            return sf.check() == z3.unsat
 
         def rec(g):
             if time.time() > deadline or leaves[0] > max_leaves:
@@ -548,23 +573,14 @@ class VC:
             c = _first_ite_cond(g)
             if c is None:
                 leaves[0] += 1
-                if all(_cheaply_valid(p) for p in _flatten_and(g)):
-                    return True
-                s.push()
-                s.add(z3.Not(g))
-                r = s.check()
-                s.pop()
-                return True if r == z3.unsat else None
+                return True if leaf_valid(g) else None
             for val in (True, False):
                 lit = c if val else z3.Not(c)
-                s.push()
-                s.add(lit)
-                feas = s.check()
-                if feas == z3.unsat:
-                    s.pop()
+                if infeasible(lit):
                     continue
+                lits.append(lit)
                 r = rec(z3.substitute(g, (c, z3.BoolVal(val))))
-                s.pop()
+                lits.pop()
                 if r is not True:
                     return None
             return True
